@@ -59,7 +59,11 @@ fn small(ctx: &mut Ctx) {
             if !ctx.begin_case() { continue; }
             let bits = gen::pattern(n, code);
             let model = NaiveBits(bits.clone());
-            let args = QArgs::all(n, model.count_ones(), model.count_zeros(), 3);
+            let mut args = QArgs::all(n, model.count_ones(), model.count_zeros(), 3);
+            // "all query arguments": the extreme values as well.
+            args.idx.extend(QArgs::extremes());
+            args.ranks.extend(QArgs::extremes());
+            let args = args.dedup();
             let ones = model.count_ones();
             for (route, bv) in routes(&bits, ctx, index) {
                 check_one(ctx, route, bv, &model, &args, &opts);
@@ -73,7 +77,10 @@ fn small(ctx: &mut Ctx) {
 
 fn boundary_args(n: usize, m: &SetModel, rng: &mut crate::util::Rng, budget: usize) -> QArgs {
     if n <= 4200 {
-        return QArgs::all(n, m.count_ones(), m.count_zeros(), 3);
+        let mut a = QArgs::all(n, m.count_ones(), m.count_zeros(), 3);
+        a.idx.extend(QArgs::extremes());
+        a.ranks.extend(QArgs::extremes());
+        return a.dedup();
     }
     let mut idx: Vec<usize> = Vec::new();
     // Word / block / superblock-ish boundaries and the end.
@@ -86,6 +93,7 @@ fn boundary_args(n: usize, m: &SetModel, rng: &mut crate::util::Rng, budget: usi
         }
     }
     for d in 0..3 { idx.push(n.saturating_sub(d)); idx.push(n + d); idx.push(d); }
+    idx.extend(QArgs::extremes());
     for _ in 0..budget { idx.push(rng.below(n + 2)); }
     let ones = m.count_ones();
     let zeros = m.count_zeros();
